@@ -54,6 +54,11 @@ func (f *BufferedFormatter) WithSchema(schema *ast.Schema) *BufferedFormatter {
 	return f
 }
 
+func (f *BufferedFormatter) WithVariableDefinitions(defs ast.VariableDefinitionList) *BufferedFormatter {
+	f.Formatter.WithVariableDefinitions(defs)
+	return f
+}
+
 func (f *BufferedFormatter) Copy() *BufferedFormatter {
 
 	return &BufferedFormatter{
@@ -86,6 +91,7 @@ type Formatter struct {
 	operationName *string
 	operationType ast.Operation
 	schema        *ast.Schema
+	variableDefs  ast.VariableDefinitionList
 
 	padNext  bool
 	lineHead bool
@@ -118,6 +124,13 @@ func (f *Formatter) WithOperationType(operationType ast.Operation) *Formatter {
 
 func (f *Formatter) WithSchema(schema *ast.Schema) *Formatter {
 	f.schema = schema
+	return f
+}
+
+// WithVariableDefinitions provides the client's own variable definitions. They are consulted only
+// for variables whose type can't be derived from the position they are used at (inside a literal of a custom scalar)
+func (f *Formatter) WithVariableDefinitions(defs ast.VariableDefinitionList) *Formatter {
+	f.variableDefs = defs
 	return f
 }
 
@@ -327,6 +340,14 @@ func (f *Formatter) walkChildrenArgumentList(typeDef *ast.Definition, childs ast
 			continue
 		}
 
+		if len(ch.Value.Children) > 0 {
+			// nested literal of a custom scalar: positions have no type of their own
+			for k, v := range f.walkUntypedChildren(ch.Value.Children) {
+				res[k] = v
+			}
+			continue
+		}
+
 		if ch.Value.Kind == ast.Variable {
 			// child name is empty if it's an array, f.e. hello(arrArg: [$someVariable])
 			if ch.Name == "" && ch.Value.ExpectedType != nil {
@@ -334,12 +355,46 @@ func (f *Formatter) walkChildrenArgumentList(typeDef *ast.Definition, childs ast
 			}
 			ad := typeDef.Fields.ForName(ch.Name)
 			if ad == nil {
+				if _, ok := res[ch.Value.Raw]; !ok {
+					if t := f.declaredVariableType(ch.Value.Raw); t != "" {
+						res[ch.Value.Raw] = t
+					}
+				}
 				continue
 			}
 			res[ch.Value.Raw] = ad.Type.String()
 		}
 	}
 	return res
+}
+
+// walkUntypedChildren collects variables used inside a literal of a custom scalar, typed as the client declared them
+func (f *Formatter) walkUntypedChildren(childs ast.ChildValueList) map[string]string {
+	res := make(map[string]string)
+	for _, ch := range childs {
+		if ch.Value == nil {
+			continue
+		}
+		if len(ch.Value.Children) > 0 {
+			for k, v := range f.walkUntypedChildren(ch.Value.Children) {
+				res[k] = v
+			}
+			continue
+		}
+		if ch.Value.Kind == ast.Variable {
+			if t := f.declaredVariableType(ch.Value.Raw); t != "" {
+				res[ch.Value.Raw] = t
+			}
+		}
+	}
+	return res
+}
+
+func (f *Formatter) declaredVariableType(name string) string {
+	if vd := f.variableDefs.ForName(name); vd != nil && vd.Type != nil {
+		return vd.Type.String()
+	}
+	return ""
 }
 
 func (f *Formatter) formatSelectionSet(sets ast.SelectionSet) {
